@@ -176,6 +176,21 @@ def run(ctx):
         base = dict(Fps=fps, Preview=preview, Trig=trig, Min=mn, Max=mx, const=rng.random() < 0.5, blip=0)
         rs.append(dict(base, steps=steps))
         rs.append(dict(base, steps=[st for st in steps if st["a"] != "snapreq"]))
+    # a test recording requested so that it starts on the very frame that triggers a motion recording: both recorders
+    # open their files within the same Process call (recording names have millisecond resolution)
+    trng = ctx.sub_rng("snapshot.trigger-frame-requests")
+    for i in range(6 if tier == "quick" else 40):
+        fps, preview, trig = trng.choice([1, 2, 3]), trng.choice([0, 1]), trng.choice([1, 2, 3])
+        mn = trng.choice([1, 2]); mx = mn + trng.choice([2, 4])
+        steps = [dict(a="frame", motion=False) for _ in range(trng.randint(1, 5))]
+        steps += [dict(a="frame", motion=True) for _ in range(trig - 1)]
+        steps += [dict(a="snapreq")]
+        steps += [dict(a="frame", motion=True) for _ in range(trng.randint(3, 8))]
+        steps += [dict(a="frame", motion=False) for _ in range(preview * fps + trig + mx * fps + 25)]
+        base = dict(Fps=fps, Preview=preview, Trig=trig, Min=mn, Max=mx, const=trng.random() < 0.5, blip=0)
+        rs.append(dict(base, steps=steps))
+        rs.append(dict(base, steps=[st for st in steps if st["a"] != "snapreq"]))
+    npairs = len(rs) // 2
     inp, outp = ctx.path("run", "reqpairs.json"), ctx.path("run", "reqpairs.ndjson")
     json.dump(dict(scripts=rs), open(inp, "w"))
     r = subprocess.run([binp0, "-test.run", "^TestVerifRealSinks$"], env=dict(os.environ, VERIF_SCRIPT=inp, VERIF_OUT=outp),
@@ -271,7 +286,15 @@ def collect(events, evs, sent, conns, check_pipeline):
             stored = [x for f in last[-1]["constant"] if f["kind"] == "final" for x in f["ids"]]
             # every stored frame is one of the frames sent, in order, without repetition; only the unfinished tail may be missing
             exp = [v for v in sent if v in set(stored)]
-            events.append(dict(ev="pipeline", stored=stored, expected=exp if is_prefix_per_conn(stored, sent) else sent))
+            # and none of the frames of a connection up to the last one stored may be missing (no bad frames are sent,
+            # the continuous recorder takes every frame from the first one on, across 'clear' markers too)
+            holes, sset = [], set(stored)
+            for c in conns:
+                pv = c["frame_vals"]
+                mine = [i for i, v in enumerate(pv) if v in sset]
+                if mine:
+                    holes += [v for v in pv[:mine[-1] + 1] if v not in sset]
+            events.append(dict(ev="pipeline", stored=stored, expected=exp if is_prefix_per_conn(stored, sent) else sent, holes=holes))
 
 
 def is_prefix_per_conn(stored, sent):
